@@ -448,18 +448,17 @@ func (o *ltrOvl) judge(r *h.Report, end *ltrBk, gotE []string, views []ltrFeatVi
 	}
 	sameStart = sameStart && nStart == len(got)
 	sameEnd = sameEnd && nEnd == len(got)
+	cls := "mixture" // observation, not judged: a read is not one critical section; with two or more overlapping
+	// additions the reply can be a mixture no single moment had (Spine.Props.C07 c07_overlapped_read_not_atomic)
 	switch {
 	case sameStart && sameEnd:
-		r.Case("read-overlap:nothing-visible-changed")
+		cls = "nothing-visible-changed"
 	case sameStart:
-		r.Case("read-overlap:reply-is-the-start")
+		cls = "is-the-start"
 	case sameEnd:
-		r.Case("read-overlap:reply-is-the-end")
-	default:
-		// observation, not judged: a read is not one critical section; with two or more overlapping additions the
-		// reply can be a mixture no single moment had (Spine.LTree c07_overlapped_read_not_atomic)
-		r.Case("read-overlap:reply-is-a-mixture")
+		cls = "is-the-end"
 	}
+	r.Dist["overlap-reply:"+cls]++
 }
 
 func (b *ltrBk) isAttached(k int) bool {
@@ -1659,6 +1658,9 @@ func ltrOverlapBlock(r *h.Report, d *h.Driver) {
 	if r.MismatchN == 0 {
 		r.Floor("overlapped reads that were held at an entity", r.Dist["rhold:held"], r.Dist["rhold:held"]+r.Dist["rhold:finished"], 0.5)
 		r.Floor("ops performed while a read was held, per held read", ltrOvlOps, r.Dist["rhold:held"], 1.0)
+		nr := r.Dist["overlap-reply:mixture"] + r.Dist["overlap-reply:is-the-start"] + r.Dist["overlap-reply:is-the-end"] + r.Dist["overlap-reply:nothing-visible-changed"]
+		r.Floor("overlapped replies that differ from the tree at the start of the read", r.Dist["overlap-reply:mixture"]+r.Dist["overlap-reply:is-the-end"], nr, 0.15)
+		r.Floor("overlapped replies that are the tree of no single moment", r.Dist["overlap-reply:mixture"], nr, 0.03)
 	}
 }
 
